@@ -307,7 +307,7 @@ def retry_remainder(chk, P, prefix):
         bb, s, fo = cands[0]
         w = fo["watchers"]
         r, names = mir.o_field_path(w)
-        if names[-1:] != ["watchers"] or w[0] == "call":
+        if names[-1:] != ["watchers"] or w[0] == "call" or mir.o_root(w)[0] in ("call", "const", "agg"):
             return False, ("the retried batch gets watchers %s, not the current batch's: flush callbacks would fire "
                            "before the retry finished or never" % o_str(w)), [], "%s:%s" % (b.file, s.get("line"))
         return True, "", ["%s:%s" % (b.file, s.get("line"))]
@@ -1002,6 +1002,49 @@ def tokio_blocking(chk, P, prefix):
                 return False, "no thread-based fallback (sync::%s) for callers outside a runtime" % fn, [], b.span
             return True, "", [c.loc for c in bip] + [c.loc for c in fb]
         chk.ob("%s.R5:tokio::%s" % (prefix, fn), "blocking entry points never call block_on from inside an async context", f)
+
+
+def tokio_worker_runtime(chk, P, prefix):
+    """tokio::spawn: the receiver runs on a runtime the worker thread built itself, with its time driver on - the receiver's idle and
+    back-off sleeps are timers, and a borrowed runtime (Handle::block_on) only fires timers while *its* thread is parked in block_on."""
+    def f():
+        if not P.has_body("emit_batcher::tokio::spawn"):
+            raise mir.AnchorMissing("emit_batcher::tokio::spawn")
+        b = P.body("emit_batcher::tokio::spawn")
+        bodies = [b] + P.closures_of(b)
+        bo = [(x, c) for x in bodies for c in x.calls(normal_only=True) if c.callee.get("name") == "block_on"]
+        if not bo:
+            return False, "tokio::spawn never drives the receiver (no block_on)", [], b.span
+        for x, c in bo:
+            if not (c.callee.get("path") or "").startswith("tokio::runtime::runtime::Runtime") and not (c.callee.get("path") or "").startswith("tokio::runtime::Runtime"):
+                return False, ("tokio::spawn drives the receiver with %s at %s, not on a runtime of its own: on a borrowed current-thread "
+                               "runtime the receiver's timers only fire while that runtime's own thread is parked, so a blocked caller stalls "
+                               "the worker" % (c.callee.get("full") or c.callee.get("path"), c.loc)), [], c.loc
+            # the runtime is built right here, with timers
+            names = []
+            o = x.origin(c.args[0])
+            d = 0
+            while d < 12:
+                d += 1
+                o = mir.o_root(o)
+                if o[0] == "call":
+                    names.append(o[1].callee.get("name"))
+                    if not o[1].args:
+                        break
+                    o = x.origin(o[1].args[0])
+                    continue
+                break
+            if "build" not in names or not ({"enable_all", "enable_time"} & set(names)):
+                return False, ("the runtime the worker blocks on is not built in place with its time driver enabled (%s): the receiver's sleeps "
+                               "would panic or never fire" % names), [], c.loc
+        for x in bodies:
+            for c in x.calls(normal_only=True):
+                if c.callee.get("name") in ("try_current", "current") and "Handle" in (c.callee.get("path") or ""):
+                    return False, "tokio::spawn looks up the caller's runtime (%s at %s); the worker must not depend on it" % (c.callee.get("name"), c.loc), [], c.loc
+        if any(not x.must_pass([c.bb]) for x, c in bo if len(bo) == 1):
+            return False, "the worker thread can finish without driving the receiver", [], bo[0][1].loc
+        return True, "", [c.loc for x, c in bo]
+    chk.ob("%s.R5:tokio::spawn" % prefix, "the tokio worker drives the receiver on its own runtime (built in place, timers on)", f)
 
 
 def _is_len(o):
